@@ -2,6 +2,7 @@ CONSTANTS
  Scenario = 1
  InitTtl = "none"
  Variant = "no_key_lock"
+ GetdelBlocking = TRUE
  OwnerSwitch = "sync"
  Ops <- MCOps
  Kind <- MCKind
